@@ -198,6 +198,17 @@ def gen_spec(rng, size):
                 pspell[s] = p
 
     def new_unit(pool, nrefs=None, linear_in=None):
+        for _ in range(50):        # keep root factors inside the float range: the float registry reads the file too
+            u, f, bexp = new_unit1(pool, nrefs, linear_in)
+            if F(1, 10 ** 40) < abs(f) < 10 ** 40 and all(abs(e) <= 8 for e in bexp.values()):
+                break
+        root[u["name"]] = (f, bexp)
+        for s in [u["name"], u["sym"]] + u["aliases"]:
+            if s:
+                spell[s] = u["name"]
+        return u
+
+    def new_unit1(pool, nrefs=None, linear_in=None):
         """a derived unit over spellings of units in `pool` (canonical names)"""
         name = nm.fresh("u", LOWER)
         ft = rng.choice(FACTORS)
@@ -234,11 +245,7 @@ def gen_spec(rng, size):
         u = {"name": name, "factor": ft, "refs": refs, "form": rng.randrange(5),
              "sym": nm.fresh("q", LOWER, 1, 3) if rng.random() < 0.6 else None,
              "aliases": [nm.fresh("a", LOWER) for _ in range(rng.choice([0, 0, 1, 2]))], "offset": None, "log": None}
-        root[name] = (f, bexp)
-        for s in [name, u["sym"]] + u["aliases"]:
-            if s:
-                spell[s] = name
-        return u
+        return u, f, bexp
 
     mult = [b["name"] for b in sp["base"]]
     for _ in range(size):
@@ -270,10 +277,11 @@ def gen_spec(rng, size):
         spell[n] = n        # own name stays addressable for queries (not for references)
     sp["nonmult"] = nonmult
     # derived dimensions
-    for _ in range(rng.randint(1, 3)):
-        ds = rng.sample(sp["dims"], min(2, len(sp["dims"])))
+    for _ in range(rng.randint(2, 4)):
+        pool = sp["dims"] + [x["name"] for x in sp["ddims"]]      # derived dimensions may build on derived dimensions
+        ds = rng.sample(pool, 2)
         sp["ddims"].append({"name": "[" + nm.fresh("x", LOWER) + "]",
-                            "refs": [(ds[0], rng.choice([1, 2])), (ds[-1], rng.choice([-1, -2]))] if len(ds) > 1 else [(ds[0], 2)]})
+                            "refs": [(ds[0], rng.choice([1, 2])), (ds[-1], rng.choice([-1, -2]))]})
     # @alias lines
     for _ in range(rng.randint(0, 2)):
         tgt = rng.choice([u["name"] for u in sp["units"] if u["name"] not in nonmult] + [b["name"] for b in sp["base"]])
@@ -807,6 +815,41 @@ def use(ureg, target):
 
 
 # ===================================================================== the check
+class Rec:
+    """what a worker process records for one generated file (merged into the Check by the parent)"""
+
+    def __init__(self, seed, tier):
+        self.seed, self.tier = seed, tier
+        self.keys, self.counts, self.broken, self.samples = [], {}, [], []
+
+    def case(self, key=None, nontrivial=True, sample=None, n=1):
+        self.keys.append((key, nontrivial, sample))
+
+    def count(self, name, n=1):
+        self.counts[name] = self.counts.get(name, 0) + n
+
+
+def b_worker(args):
+    seed, fi, quirk, thorough, tmp = args
+    rng = random.Random(f"c10-{seed}-{fi}")
+    rec = Rec(seed, "thorough" if thorough else "quick")
+    sp = gen_spec(rng, rng.randint(5, 14) if not thorough else rng.randint(5, 20))
+    cases, descs, fails, fgroups = [], [], [], []
+    stats = {"registries": 0, "variants": 0}
+
+    def add(term, desc, key, nontrivial=True):
+        cases.append(term)
+        descs.append(desc)
+        rec.case(key=key, nontrivial=nontrivial, sample=desc)
+    try:
+        part_b_file(rec, rng, Path(tmp), fi, sp, quirk, add, lambda k, d, r: fails.append((k, d, r)), stats, thorough, fgroups)
+    except Exception as e:
+        import traceback
+        rec.broken.append(f"harness stopped on generated file {fi}: {e!r} {traceback.format_exc()[-600:]}")
+    return {"cases": cases, "descs": descs, "fails": fails, "fgroups": fgroups, "stats": stats, "keys": rec.keys,
+            "counts": rec.counts, "broken": rec.broken}
+
+
 def run(ck):
     import pint
     rng = random.Random(ck.seed)
@@ -833,6 +876,7 @@ def run(ck):
     ok = ck.coq_build(["Properties/C10.vo", "Model/DefFileRun.vo", "Gen/DefaultReg.vo"])
     tmp = mktemp()
     cases, descs = [], []
+    fgroups = []                  # per generated file: (name, header with its shared observations, cases, descs)
     fails = []                    # (key, description, replay)
 
     def add(term, desc, key, nontrivial=True):
@@ -847,7 +891,12 @@ def run(ck):
     t0 = time.time()
     timing = {}
     # ---------------------------------------------------------------- (a) the bundled files
-    part_a(ck, rng, add, fail, thorough)
+    try:
+        part_a(ck, rng, add, fail, thorough)
+    except Exception as e:          # the bundled file itself no longer loads / reads: a concrete failing input
+        import traceback
+        fail("load-failed:default_en.txt", f"the bundled definition file cannot be loaded or queried: {e!r}"[:400],
+             {"file": "pint/default_en.txt", "traceback": traceback.format_exc()[-1500:]})
     timing["a"] = round(time.time() - t0, 1)
 
     # ---------------------------------------------------------------- quirk selection (DESIGN §2.6)
@@ -862,22 +911,58 @@ def run(ck):
 
     # ---------------------------------------------------------------- (b) random files
     stats = {"registries": 0, "variants": 0}
-    for fi in range(nfiles):
-        sp = gen_spec(rng, rng.randint(5, 14) if not thorough else rng.randint(5, 20))
-        part_b_file(ck, rng, tmp, fi, sp, quirk, add, fail, stats, thorough)
+    import concurrent.futures as cf
+    import multiprocessing as mp
+    jobs = [(ck.seed, fi, quirk, thorough, str(tmp)) for fi in range(nfiles)]
+    with cf.ProcessPoolExecutor(max_workers=min(8, os.cpu_count() or 2), mp_context=mp.get_context("fork")) as ex:
+        for res in ex.map(b_worker, jobs):
+            cases += res["cases"]
+            descs += res["descs"]
+            fails += res["fails"]
+            fgroups += res["fgroups"]
+            ck.broken += res["broken"]
+            for k in ("registries", "variants"):
+                stats[k] += res["stats"][k]
+            for key, nontrivial, sample in res["keys"]:
+                ck.case(key=key, nontrivial=nontrivial, sample=sample if len(ck.samples) < 6 else None)
+            for name, n in res["counts"].items():
+                ck.count(name, n)
     timing["b"] = round(time.time() - t0, 1)
     ck.extra["pint_registries_built"] = stats["registries"]
     ck.extra["file_variants"] = stats["variants"]
 
     # ---------------------------------------------------------------- (c) malformed stream
-    part_c(ck, rng, tmp, quirk, add, fail, thorough)
+    try:
+        part_c(ck, rng, tmp, quirk, add, fail, thorough)
+    except Exception as e:
+        import traceback
+        ck.broken.append(f"malformed stream stopped: {e!r} {traceback.format_exc()[-600:]}")
 
     timing["c"] = round(time.time() - t0, 1)
     # ---------------------------------------------------------------- differ inside Coq
-    bad = ck.coq_mismatches("c10", HEADER, cases, "c10_ok", shard=40 if not thorough else 60, timeout=1500) if ok else None
+    bad = None
+    if ok:
+        import concurrent.futures as cf
+        bad = ck.coq_mismatches("c10", HEADER, cases, "c10_ok", shard=400, timeout=1500)
+        bad = None if bad is None else [descs[i] for i in bad]
+
+        def one(g):
+            name, hdr, cs, ds = g
+            r = ck.coq_mismatches(name, hdr, cs, "c10_ok", shard=400, timeout=1500)
+            return None if r is None else [ds[i] for i in r]
+        with cf.ThreadPoolExecutor(max_workers=min(16, max(1, len(fgroups)))) as ex:
+            for r in ex.map(one, fgroups):
+                if r is None or bad is None:
+                    bad = None
+                else:
+                    bad += r
+    ncases = len(cases) + sum(len(g[2]) for g in fgroups)
+    t = os.times()
     timing["coq"] = round(time.time() - t0, 1)
+    timing["cpu_python_s"] = round(t.user + t.system, 1)
+    timing["cpu_coq_children_s"] = round(t.children_user + t.children_system, 1)
     ck.extra["timing_cumulative_s"] = timing
-    ck.extra["model_vs_impl_cases"] = len(cases)
+    ck.extra["model_vs_impl_cases"] = ncases
     ck.extra["model_vs_impl_disagreements"] = None if bad is None else len(bad)
     seen = set()
     for key, desc, rp in fails:
@@ -885,11 +970,10 @@ def run(ck):
             seen.add(key)
             ck.violation(key, desc, rp)
     if bad:
-        ck.broken.append(f"correspondence DefFileRun.c10_ok: {len(bad)} disagreements, first: {descs[bad[0]]}")
-        if not fails:
+        ck.broken.append(f"correspondence DefFileRun.c10_ok: {len(bad)} disagreements, first: {bad[0]}")
+        if not [f for f in fails if ck._match_known(f[0]) is None]:
             ck.violation("correspondence", "model and implementation disagree; no property oracle failed",
-                         {"first_disagreement": descs[bad[0]], "coq_case": cases[bad[0]][:3000], "n": len(bad),
-                          "all": [descs[i] for i in bad[:20]]}, no_input=True)
+                         {"first_disagreement": bad[0], "n": len(bad), "all": bad[:20]}, no_input=True)
     shutil.rmtree(tmp, ignore_errors=True)
 
 
@@ -1072,7 +1156,7 @@ def py_print_dec(q):
 
 
 # ===================================================================== (b)
-def part_b_file(ck, rng, tmp, fi, sp, quirk, add, fail, stats, thorough):
+def part_b_file(ck, rng, tmp, fi, sp, quirk, add, fail, stats, thorough, fgroups):
     import pint
     # probes: prefixed / plural spellings of multiplicative units
     mult_sp = [s for s, c in sp["spell"].items() if c not in sp["nonmult"]]
@@ -1084,7 +1168,14 @@ def part_b_file(ck, rng, tmp, fi, sp, quirk, add, fail, stats, thorough):
     nrec = len(section_a(sp))
     orders = [None] + [rng.sample(range(nrec), nrec) for _ in range(6)]
     ref = None
-    ref_types = None
+    gcases, gdescs = [], []
+
+    def gadd(term, desc, key):
+        gcases.append(term)
+        gdescs.append(desc)
+        ck.case(key=key, sample=desc if len(ck.samples) < 6 else None)
+    chk_name = f"chk{fi}"
+    ghdr = None
     replay_base = {"file_index": fi, "seed": ck.seed}
     for oi, order in enumerate(orders):
         for v in LAYOUTS:
@@ -1117,10 +1208,26 @@ def part_b_file(ck, rng, tmp, fi, sp, quirk, add, fail, stats, thorough):
                 ref = m0
                 # what is written (generator's expectation) vs pint
                 exp = expected_meaning(sp)
+                syms = {b["name"]: b["sym"] for b in sp["base"]}
+                syms.update({uu["name"]: uu["sym"] for uu in sp["units"] + [x for g in sp["groups"] for x in g["units"]]})
                 for s, (ef, eb) in exp.items():
                     got = m0["units"][s][2]
                     if got != (ef, eb):
                         fail("written-meaning:root", f"{s}: file says factor {ef} over {eb}, registry says {got}", dict(rp, name=s))
+                    c = sp["spell"][s]
+                    if m0["units"][s][0] != c or m0["units"][s][1] != (syms[c] or c):
+                        fail("written-meaning:name-symbol", f"{s}: file says name {c}, symbol {syms[c] or c}; registry says {m0['units'][s][:2]}", dict(rp, name=s))
+                for ps, pn in sp["pspell"].items():
+                    pd = [x for x in sp["prefixes"] if x["name"] == pn][0]
+                    if m0["prefixes"][ps] != (pn, fr(pd["val"]), pd["sym"] or pn):
+                        fail("written-meaning:prefix", f"{ps}: file says {pn} = {pd['val']} symbol {pd['sym'] or pn}; registry says {m0['prefixes'][ps]}", dict(rp, name=ps))
+                for dd in sp["ddims"]:
+                    want = (False, tuple(sorted((n, fr(F(e))) for n, e in dd["refs"])))
+                    if m0["dimensions"][dd["name"]] != want:
+                        fail("written-meaning:derived-dimension", f"{dd['name']}: written {want}, registry {m0['dimensions'][dd['name']]}", dict(rp, name=dd["name"]))
+                for d in sp["dims"]:
+                    if m0["dimensions"][d] != (True, ()):
+                        fail("written-meaning:base-dimension", f"{d}: registry says {m0['dimensions'][d]}", dict(rp, name=d))
                 for g, mem in exp_groups.items():
                     if m0["groups"].get(g) != mem:
                         fail("written-meaning:group-members", f"group {g}: written {mem}, registry {m0['groups'].get(g)}", dict(rp, group=g))
@@ -1164,8 +1271,8 @@ def part_b_file(ck, rng, tmp, fi, sp, quirk, add, fail, stats, thorough):
                             allnames.append(d["fields"][0])
                             if any(k == "offset" for k, _ in d["mods"]) and u0._units[d["fields"][0]].converter.__class__.__name__ == "OffsetConverter":
                                 allnames.append("delta_" + d["fields"][0])
-                    checks.append("KUnitNames " + coq_strs(allnames))
-                    add(f"CFile {raw} {coq_strs(dl)} {coq_bool(quirk)} {coq_list(checks)}", {"file": label, "lines": len(dl)}, ("b-file", fi))
+                    ghdr = HEADER + f"Definition {chk_name} : list check := {coq_list(checks)}.\n"
+                    gadd(f"CFile {raw} {coq_strs(dl)} {coq_bool(quirk)} (KUnitNames {coq_strs(allnames)} :: {chk_name})", {"file": label, "lines": len(dl)}, ("b-file", fi))
                     ck.count("files: T1+Coq reading vs pint", 1)
                     ck.count("observations per reference file", len(checks))
                     # groups / systems: the closure model
@@ -1190,10 +1297,11 @@ def part_b_file(ck, rng, tmp, fi, sp, quirk, add, fail, stats, thorough):
                     return
             else:
                 # ---- model on the variant: same observations as the reference (order-free ones)
-                if ref is not None and (thorough or oi <= 2 or v["id"] == 0):
+                if ref is not None and ghdr is not None:
+                    # the observations are those of the reference file: pint gave the same answers on this
+                    # variant (oracle below), so the model must give them on the variant's lines
                     dl, _flat, _st = def_lines(main)
-                    checks = checks_from_pint(per_path["file"][0], sp) if per_path["file"][0] is not None else []
-                    add(f"CVariant {coq_strs(dl)} {coq_bool(quirk)} {coq_list(checks)}", {"variant": label}, ("b-var", fi, oi, v["id"]))
+                    gadd(f"CVariant {coq_strs(dl)} {coq_bool(quirk)} {chk_name}", {"variant": label}, ("b-var", fi, oi, v["id"]))
                     ck.count("variants: Coq reading vs pint", 1)
                 if v["id"] != 0 and oi <= 1:
                     for r, ln, extra in printed[:6] + printed[-2:]:
@@ -1249,11 +1357,13 @@ def part_b_file(ck, rng, tmp, fi, sp, quirk, add, fail, stats, thorough):
                         for s, val in am.items():
                             if s in exact and exact[s][0] is not None and isinstance(val, tuple):
                                 e = float(exact[s][0])
-                                if abs(val[0] - e) > 1e-9 * max(abs(e), 1e-300):
+                                if not abs(val[0] - e) <= 1e-9 * max(abs(e), 1e-300):
                                     fail(f"numeric:{nit.__name__}", f"{label}: {s} root factor {val[0]} vs exact {e}", dict(rp, name=s))
                     ck.case(key=("b-kind", fi, oi, nit.__name__, stats["registries"]))
                 ck.count("numeric kinds over a shared cache folder", 6)
     shutil.rmtree(tmp / f"f{fi}", ignore_errors=True)
+    if ghdr is not None:
+        fgroups.append((f"c10_f{fi}", ghdr, gcases, gdescs))
 
 
 def expected_context(sp, c):
